@@ -67,7 +67,9 @@ func (w wrapCoder) Unwrap() error       { return w.inner }
 // msgVariants are the character classes of error texts (all valid UTF-8: every one of them must arrive unchanged)
 var msgVariants = []string{`<&> "q"`, "tab\tnl\ncr\r", "ctl\x01\a\v\x7f\x00", "sep\u2028\u2029", "astral😀\U000e0001", `back\slash/`, "é ü 漢", ""}
 
-func msgText(k int) string { return msgVariants[((k%len(msgVariants))+len(msgVariants))%len(msgVariants)] }
+func msgText(k int) string {
+	return msgVariants[((k%len(msgVariants))+len(msgVariants))%len(msgVariants)]
+}
 
 var dataVariants = []any{nil, json.RawMessage(`null`), 17, map[string]any{"a": []int{1, 2}, "b": "x y"}, "text"}
 
